@@ -32,6 +32,23 @@ def worker_entries(ctx: Ctx) -> Dict[str, FuncInfo]:
     return ent
 
 
+def pool_kind_obligation(ctx: Ctx, rule: str, qns):
+    """the pool the jobs are handed to is a *thread* pool (assumption "ThreadPoolExecutor/Future semantics": workers share the submitting thread's
+    memory - one numpy generator, the job's arguments and results are the very objects).  Another kind of executor is not judged."""
+    M = ctx.model
+    for qn in qns:
+        f = M.functions.get(qn)
+        for w in ([x for x in walk_no_nested(f.node) if isinstance(x, ast.With)] if f is not None else []):
+            for it in w.items:
+                c = it.context_expr
+                if isinstance(c, ast.Call) and ("Executor" in norm(c.func) or norm(c.func).split(".")[-1] in ("Pool", "ThreadPool")):
+                    if norm(c.func).split(".")[-1] == "ThreadPoolExecutor":
+                        ctx.ok(rule, f, c, "the jobs run in a thread pool", key=f"pool-kind:{qn}")
+                    else:
+                        ctx.undecided(rule, f, c, f"{qn} hands its jobs to `{norm(c.func)}`, not to a ThreadPoolExecutor: the rules assume workers that share the "
+                                      f"submitting thread's memory (one numpy generator, arguments and results passed by reference) (not a verdict)", key=f"pool-kind:{qn}")
+
+
 def run(ctx: Ctx):
     M, p = ctx.model, prog(ctx)
     ctx.clauses += [
@@ -54,6 +71,7 @@ def run(ctx: Ctx):
     for qn in POOL_FUNCS:
         f = ctx.fn(qn, "R-C06-1")
         ctx.require(sites.get(qn), "R-C06-1", f"no Executor.submit site found in {qn} (anchor vanished)")
+    pool_kind_obligation(ctx, "R-C06-1", POOL_FUNCS)
     entries = worker_entries(ctx)
     ctx.require(entries, "R-C06-1", "no worker entry point found")
     ctx.notes["worker_entry_points"] = sorted(entries)
